@@ -186,7 +186,9 @@ fn fence_acq(execution: &mut Execution) {
     for state in execution.objects.iter_mut::<State>() {
         // Iterate all the stores
         for store in state.stores_mut() {
-            if !store.first_seen.is_seen_by_current(&execution.threads) {
+            // Only the stores the current thread has loaded itself take part
+            // in the fence's synchronization.
+            if !store.first_seen.is_seen_by_thread(&execution.threads) {
                 continue;
             }
 
@@ -960,6 +962,10 @@ impl FirstSeen {
         }
 
         false
+    }
+
+    fn is_seen_by_thread(&self, threads: &thread::Set) -> bool {
+        self.0[threads.active_id().as_usize()] != u16::MAX
     }
 
     fn is_seen_before_yield(&self, threads: &thread::Set) -> bool {
